@@ -268,6 +268,16 @@ def run_check(modname, tier, seed, jobs=None):
             if b is None or size < b[0]:
                 buckets[v["signature"]] = (size, v)
 
+    # a listed finding the search ran into is reported even when its saved
+    # replay was not reproduced above
+    for e in known_entries:
+        if e.get('status') != 'open':
+            continue
+        ln = "KNOWN-FINDING: property=%s %s" % (prop, e.get('what_fails', ''))
+        if ln not in seen_lines and any(
+                known_hits.get(sg) for sg in e.get('signatures', [])):
+            seen_lines.append(ln)
+            print(ln)
     for sig in sorted(buckets):
         v = buckets[sig][1]
         sub = ('mutant-found' if os.environ.get('VERIF_NO_EVIDENCE')
@@ -280,7 +290,7 @@ def run_check(modname, tier, seed, jobs=None):
             json.dump({"property": prop, "signature": sig,
                        "message": v["message"], "case": v["case"],
                        "tier": tier, "seed": seed}, f, indent=1,
-                      sort_keys=True, default=repr)
+                      default=repr)     # (key order is part of some cases)
         print("VIOLATION property=%s replay=%s" % (prop, rp))
         print("  # %s: %s" % (sig, v["message"]))
         status = 1
